@@ -2,6 +2,7 @@ import Firefly.Model.Vt
 import Firefly.Spec.Term
 import Firefly.Proof.Vt
 import Firefly.Props.C17
+import Firefly.Props.C19
 import Firefly.Gen.C18
 /-!
 # C18 — An active terminal and its console always show the same thing
@@ -38,17 +39,19 @@ structure Screen (K : Console) (w h : Nat) : Prop where
 outside) holds after every history that starts with `NewVT` + `AttachTo` -/
 private theorem history_sync {w h sb : Nat} (tab : Nat) (fg bg : UInt8) (hd : Dom w h sb) (ops : List Op)
     {K0 : Console} (hk : Screen K0 w h) {t : VT} (ht : history w h sb tab fg bg ops = .ok t) :
-    Sync K0 t ∧ Inv t ∧ t.viewportWidth = w ∧ t.viewportHeight = h := by
+    Sync K0 t ∧ Inv t ∧ t.viewportWidth = w ∧ t.viewportHeight = h ∧ t.defaultFg = fg ∧ t.defaultBg = bg := by
   obtain ⟨t0, a0, i0, r0, act0, out0⟩ := attach_spec tab fg bg hd.1 hd.2.1 hd.2.2
   have hw0 : t0.viewportWidth = w := by have := congrArg Term.w r0; simpa [absVT, Term.new] using this
   have hh0 : t0.viewportHeight = h := by have := congrArg Term.h r0; simpa [absVT, Term.new] using this
+  have hf0 : t0.defaultFg = fg := by have := congrArg Term.fg r0; simpa [absVT, Term.new] using this
+  have hb0 : t0.defaultBg = bg := by have := congrArg Term.bg r0; simpa [absVT, Term.new] using this
   have s0 : Sync K0 t0 := Sync.init hk.wf (by rw [hk.w, hw0]) (by rw [hk.h, hh0]) out0 act0
   have hrun : run t0 ops = .ok t := by simpa [history, a0, Res.bind] using ht
   obtain ⟨t', a', i', r'⟩ := run_spec ops i0
   rw [a'] at hrun; cases hrun
   have c := run_cfg ops (absVT t0)
   rw [← r'] at c
-  exact ⟨run_sync ops i0 a' K0 s0, i', c.w.trans hw0, c.h.trans hh0⟩
+  exact ⟨run_sync ops i0 a' K0 s0, i', c.w.trans hw0, c.h.trans hh0, c.fg.trans hf0, c.bg.trans hb0⟩
 
 /-- **active_sync** — after every history, if the terminal is Active the console shows exactly the
 terminal's viewport, cell for cell, which is the viewport of the reference terminal of C17. -/
@@ -57,7 +60,7 @@ theorem active_sync {w h sb : Nat} (tab : Nat) (fg bg : UInt8) (hd : Dom w h sb)
     (ha : t.active = true) :
     (K0.applyLog t.out).cells = (absVT t).viewport ∧
     (K0.applyLog t.out).cells = ((Term.new w h sb tab fg bg).run ops).viewport := by
-  obtain ⟨s, i, _, _⟩ := history_sync tab fg bg hd ops hk ht
+  obtain ⟨s, i, _, _, _, _⟩ := history_sync tab fg bg hd ops hk ht
   have e := s.cells_eq i.toGeo ha
   exact ⟨e, by rw [e]; exact viewport_matches tab fg bg hd ops ht⟩
 
@@ -129,8 +132,105 @@ theorem no_outside_draw {w h sb : Nat} (tab : Nat) (fg bg : UInt8) (hd : Dom w h
     {K0 : Console} (hk : Screen K0 w h) {t : VT} (ht : history w h sb tab fg bg ops = .ok t) :
     (∀ c ∈ t.out, CallOk w h c) ∧ (K0.applyLog t.out).outside = K0.outside ∧
       (K0.applyLog t.out).w = w ∧ (K0.applyLog t.out).h = h := by
-  obtain ⟨s, _, hw, hh⟩ := history_sync tab fg bg hd ops hk ht
+  obtain ⟨s, _, hw, hh, _, _⟩ := history_sync tab fg bg hd ops hk ht
   exact ⟨by rw [← hw, ← hh]; exact s.ok, s.outside, by rw [← hw]; exact s.w, by rw [← hh]; exact s.h⟩
+
+/-! ## Composition with the shipped console drivers (C19 `refines_grid`) -/
+section Shipped
+open Firefly.ConsoleGrid
+
+/-- every call of a history is inside the grid and every `Write` is in the default colours -/
+private theorem history_calls {w h sb : Nat} (tab : Nat) (fg bg : UInt8) (hd : Dom w h sb) (ops : List Op)
+    {K0 : Console} (hk : Screen K0 w h) {t : VT} (ht : history w h sb tab fg bg ops = .ok t) :
+    ∀ call ∈ t.out, CallOk K0.w K0.h call ∧ CallDef fg bg call := by
+  obtain ⟨s, _, hw, hh, hf, hb⟩ := history_sync tab fg bg hd ops hk ht
+  intro call hc
+  refine ⟨?_, ?_⟩
+  · rw [hk.w, hk.h, ← hw, ← hh]; exact s.ok call hc
+  · rw [← hf, ← hb]; exact s.cols call hc
+
+/-- **shipped_consoles_text** — the terminal attached to the model of the shipped text-mode console
+(`Model/VgaText.lean`; `c.clearChar = ' '`, the terminal's colours inside the palette), starting
+from any framebuffer `fb0` that displays some abstract screen `K0`: for every history the console
+model executes the terminal's calls without panicking, the framebuffer displays the abstract
+console of `active_sync`, and while the terminal is Active every framebuffer word is the
+character/attribute word of the corresponding viewport cell of the reference terminal. -/
+theorem shipped_consoles_text (c : VgaText.Cons) (fb0 : Array UInt16) (ok : Firefly.C19.TextOk c fb0)
+    (hclear : c.clearChar = 32) {sb : Nat} (tab : Nat) (fg bg : UInt8)
+    (hcol : fg.toNat < c.paletteLen ∧ bg.toNat < c.paletteLen) (hd : Dom c.width c.height sb) (ops : List Op)
+    (K0 : Console) (wf : WF K0) (sh0 : TextShows c (Firefly.C19.view16 fb0) K0)
+    {t : VT} (ht : history c.width c.height sb tab fg bg ops = .ok t) :
+    ∃ fb, Firefly.C19.textRun c fb0 t.out = some fb ∧ Firefly.C19.TextOk c fb ∧
+      TextShows c (Firefly.C19.view16 fb) (K0.applyLog t.out) ∧
+      (t.active = true → ∀ r col, r < c.height → col < c.width →
+        Firefly.C19.view16 fb (r * c.width + col) =
+          cellWordOf ((((Term.new c.width c.height sb tab fg bg).run ops).viewport.getD r []).getD col default)) := by
+  have hk : Screen K0 c.width c.height := ⟨sh0.1, sh0.2.1, wf⟩
+  have hcalls := history_calls tab fg bg hd ops hk ht
+  have hall : ∀ call ∈ t.out, CallOk K0.w K0.h call ∧ Firefly.C19.CallColors c.paletteLen call := by
+    intro call hc
+    obtain ⟨h1, h2⟩ := hcalls call hc
+    refine ⟨h1, ?_⟩
+    cases call with
+    | write ch f b x y =>
+      simp only [CallDef] at h2
+      simp only [Firefly.C19.CallColors]
+      rw [h2.1, h2.2]; exact hcol
+    | scroll d n => trivial
+    | fill x y w h f b => trivial
+  obtain ⟨fb, r1, ok1, sh1, _, _⟩ := Firefly.C19.text_refines_grid_log c hclear t.out fb0 K0 ok wf sh0 hall
+  refine ⟨fb, r1, ok1, sh1, ?_⟩
+  intro ha r col hr hc
+  have e := (active_sync tab fg bg hd ops hk ht ha).2
+  have := sh1.2.2 r col (by rw [sh1.2.1]; exact hr) (by rw [sh1.1]; exact hc)
+  rw [this, Console.at, e]
+
+/-- **shipped_consoles_pix_partial** — the same with the model of the shipped framebuffer console
+(`Model/VesaFb.lean`) for every supported depth, pitch, font (`FontOk`, blank space glyph — a
+generated fact for the shipped fonts) and logo offset: the framebuffer displays the abstract
+console, and while Active every cell of the framebuffer shows the glyph of the corresponding
+viewport cell of the reference terminal in its packed colours.
+Partial: requires `hfit` — the text area is a whole number of glyph rows — because C19's
+`pix_refines_grid` claims the scrolled screen only then; geometries with left-over pixel rows
+below the last text line are covered by the differential run (`extraH > 0` cases) only. -/
+theorem shipped_consoles_pix_partial (c : VesaFb.Cons) (f : VesaFb.Font) (fb0 : Array UInt8)
+    (ok : Firefly.C19.PixOk c f fb0) (fok : Firefly.C19.FontOk f) (hsp : SpaceBlank f)
+    (hfit : c.offsetY + c.rows * f.gh = c.height) {sb : Nat} (tab : Nat) (fg bg : UInt8)
+    (hd : Dom c.cols c.rows sb) (ops : List Op)
+    (K0 : Console) (wf : WF K0) (sh0 : PixShows c f (Firefly.C19.view8 fb0) K0)
+    {t : VT} (ht : history c.cols c.rows sb tab fg bg ops = .ok t) :
+    ∃ fb, Firefly.C19.pixRun c fb0 t.out = some fb ∧ Firefly.C19.PixOk c f fb ∧
+      PixShows c f (Firefly.C19.view8 fb) (K0.applyLog t.out) ∧
+      (t.active = true → ∀ r col, r < c.rows → col < c.cols →
+        CellShows c f (Firefly.C19.view8 fb) (col + 1) (r + 1)
+          ((((Term.new c.cols c.rows sb tab fg bg).run ops).viewport.getD r []).getD col default)) := by
+  have hk : Screen K0 c.cols c.rows := ⟨sh0.1, sh0.2.1, wf⟩
+  have hcalls := history_calls tab fg bg hd ops hk ht
+  obtain ⟨fb, r1, ok1, sh1, _, _⟩ := Firefly.C19.pix_refines_grid_log c f fok hsp hfit t.out fb0 K0 ok wf sh0
+    (fun call hc => (hcalls call hc).1)
+  refine ⟨fb, r1, ok1, sh1, ?_⟩
+  intro ha r col hr hc
+  have e := (active_sync tab fg bg hd ops hk ht ha).2
+  have := sh1.2.2 r col (by rw [sh1.2.1]; exact hr) (by rw [sh1.1]; exact hc)
+  rw [Console.at, e] at this
+  exact this
+
+/-- non-vacuity of `shipped_consoles_text`: a blank 3×2 text screen (scrollback 2, the shipped
+default colours 7 on 0) satisfies every hypothesis, so the theorem applies to each of its histories -/
+example : ∃ (c : VgaText.Cons) (fb0 : Array UInt16) (K0 : Console), Firefly.C19.TextOk c fb0 ∧ c.clearChar = 32 ∧
+    ((7 : UInt8).toNat < c.paletteLen ∧ (0 : UInt8).toNat < c.paletteLen) ∧ Dom c.width c.height 2 ∧ WF K0 ∧
+    TextShows c (Firefly.C19.view16 fb0) K0 := by
+  refine ⟨{ width := 3, height := 2 }, Array.replicate 6 (VgaText.cellWord 32 7 0), Console.new 3 2 ⟨32, 7, 0⟩,
+    ⟨by decide, by decide, by decide, by simp, by decide⟩, rfl, by decide, by decide, new_wf 3 2 _, rfl, rfl, ?_⟩
+  intro r col hr hc
+  have hr' : r < 2 := hr
+  have hc' : col < 3 := hc
+  have hi : r * 3 + col < 6 := by omega
+  simp only [Firefly.C19.view16, Array.getD_eq_getD_getElem?, Array.getElem?_replicate, if_pos hi]
+  rcases (by omega : r = 0 ∨ r = 1) with h | h <;> subst h <;>
+    rcases (by omega : col = 0 ∨ col = 1 ∨ col = 2) with h | h | h <;> subst h <;> rfl
+
+end Shipped
 
 /-! ## Non-vacuity and the generated facts the composition with the shipped consoles rests on -/
 
